@@ -534,6 +534,43 @@ def r02h(ctx, run):
         raise LookupError("callers of the in-place builders: %d" % n)
 
 
+def r02i(ctx, run):
+    """an assignment evaluates its destination once: in compile_stmt no path compiles the `dest` expression of an assignment twice (and none compiles
+    `value` twice).  `arr[next()] += 5` compiled the destination for its address and again, through compile_binary, for its old value: `next` ran
+    twice and the element that was read was not the one that was written."""
+    F = ctx.facts
+    fn = F.fn("codegen::compiler::functions::FunctionCompiler::compile_stmt")
+    COMPILE = ("compile_expr", "compile_expr_with_args", "compile_binary", "compile_and_cast", "compile_and_cast_with_args", "compile_and_cast_into_memory", "store_expr_in_memory")
+    n = 0
+    for field in ("dest", "value"):
+        uses = []
+        for c in fn.calls():
+            if short(c.callee) not in COMPILE or "FunctionCompiler" not in c.callee:
+                continue
+            for a in c.args[1:]:
+                ch = fn.chain_operand(a, depth=8)
+                top = ch
+                # the expression handed over is the field itself (not something computed from it)
+                while isinstance(top, dict) and top.get("kind") in ("ref", "cast"):
+                    top = top.get("of") or top.get("base")
+                if isinstance(top, dict) and top.get("kind") == "place" and [x for x in top.get("proj", []) if x != "*"][-1:] == ["." + field] and "Assign" in show_chain(ch, 8):
+                    uses.append(c)
+                    break
+        if field == "dest" and len(uses) < 1:
+            raise LookupError("compilations of an assignment's destination in compile_stmt: %d" % len(uses))
+        twice = [(a, b) for a in uses for b in uses if a is not b and (a.bb == b.bb and a.ln <= b.ln and a is not b and uses.index(a) < uses.index(b) or (a.bb != b.bb and fn.can_reach(a.bb, b.bb)))]
+        n += 1
+        if twice:
+            a, b = twice[0]
+            run.finding("codegen::compiler::functions::FunctionCompiler::compile_stmt", "evaluated-twice:" + field, b.file, b.ln,
+                        "an assignment's `%s` is compiled by %s (line %d) and, on a path that continues from there, again by %s (line %d): its side effects run twice and the two "
+                        "evaluations can denote different places (`arr[next()] += 5` reads one element and writes another)" % (field, short(a.callee), a.ln, short(b.callee), b.ln))
+        else:
+            run.ok(uses[0].site() if uses else fn.site(), "compile_stmt compiles an assignment's `%s` once on every path (%d sites)" % (field, len(uses)))
+    if n < 2:
+        raise LookupError("assignment fields examined: %d" % n)
+
+
 def rules(ctx):
     return [
         Rule("R02.a", "tag stores/loads (offset derived from discriminant_offset) move exactly one byte", 9, r02a),
@@ -542,6 +579,7 @@ def rules(ctx):
         Rule("R02.d", "raw Cranelift stores only in MemoryLoc, the ABI module and reviewed scalar-slot sites", 25, r02d),
         Rule("R02.e", "every local definition and every by-value aggregate parameter is bound to a stack slot created for it (no shared storage)", 2, r02e),
         Rule("R02.h", "in-place construction of aggregates only into fresh memory: an assignment's value is complete before the destination is written", 4, r02h),
+        Rule("R02.i", "an assignment compiles its destination (and its value) once on every path", 2, r02i),
         Rule("R02.g", "stack slots are created per use site, never cached in a container; a call's spill slot is created for that call", 2, r02g),
         Rule("R02.f", "every MemoryLoc::write_all receives a value already converted to the type it is told to store", 5, r02f),
     ]
